@@ -21,6 +21,11 @@ def make_replay(prop, ob, ctx):
                 rp['verifier_output'] = fails[0]['desc']
         except Exception as ex:  # pragma: no cover
             rp['playback_error'] = str(ex)
+    if (rp['input'] is None or rp['input'].get('kind') == 'raw') and ob['engine'] == 'kani' and str(ob.get('unit', '')).startswith('langid_tables'):
+        try:
+            rp['input'] = table_diff_input(ctx.repo())
+        except Exception as ex:  # pragma: no cover
+            rp['search_error'] = str(ex)
     if ob.get('standin_input'):
         rp['input'] = ob['standin_input']
     elif ob['engine'] == 'verus':
@@ -70,6 +75,49 @@ def decode(harness, values):
         except StopIteration:
             pass
     return {'kind': 'raw', 'harness': harness, 'values': values}
+
+
+def table_diff_input(repo):
+    """A closed table obligation failed: find rows of the checked-in tables.rs that differ from the CLDR re-derivation and turn
+    the first one whose lookup misbehaves on the real library into a replayable (language, script, region)."""
+    import re
+    from . import gen, refmodel
+    exp = gen.likely(repo)
+    real = open(os.path.join(repo, 'unic-langid-impl/src/likelysubtags/tables.rs')).read()
+
+    width = {'LANG_ONLY': 4, 'LANG_REGION': 5, 'LANG_SCRIPT': 5, 'SCRIPT_REGION': 5, 'SCRIPT_ONLY': 4, 'REGION_ONLY': 4}
+
+    def rows(txt, name):
+        m = re.search(r'pub (?:static|const) %s: \[[^;]*; \d+\] = \[(.*?)\n\];' % name, txt, re.S)
+        if not m:
+            return []
+        nums = [None if x == 'None' else int(x) for x in re.findall(r'\d+|None', m.group(1))]
+        w = width[name.replace('EXPECTED_', '').replace('_FULL', '')]
+        return [tuple(nums[i:i + w]) for i in range(0, len(nums), w)]
+    shapes = {'LANG_ONLY': lambda r: (r[0], None, None), 'LANG_REGION': lambda r: (r[0], None, r[1]), 'LANG_SCRIPT': lambda r: (r[0], r[1], None),
+              'SCRIPT_REGION': lambda r: (None, r[0], r[1]), 'SCRIPT_ONLY': lambda r: (None, r[0], None), 'REGION_ONLY': lambda r: (None, None, r[0])}
+    cands = []
+    for name, key in shapes.items():
+        a = rows(real, name)
+        b = rows(exp, 'EXPECTED_%s_FULL' % name) or rows(exp, 'EXPECTED_' + name)
+        for i in range(max(len(a), len(b))):
+            ra = a[i] if i < len(a) else None
+            rb = b[i] if i < len(b) else None
+            if ra != rb:
+                for r in (rb, ra):
+                    if r is not None:
+                        cands.append((name, i, key(r)))
+    for name, i, (l, s_, r) in cands[:200]:
+        if l == gen.enc('und'):
+            continue
+        inp = {'kind': 'lsr', 'l': l, 's': s_, 'r': r, 'found_by': 'diff of tables.rs against the CLDR re-derivation: %s row %d' % (name, i)}
+        ok, _ = run_input('C18', {'input': inp})
+        if ok:
+            return inp
+    if cands:
+        name, i, (l, s_, r) = cands[0]
+        return {'kind': 'lsr', 'l': l, 's': s_, 'r': r, 'found_by': 'diff of tables.rs against the CLDR re-derivation: %s row %d (lookup of this key agrees; the table text differs)' % (name, i)}
+    return None
 
 
 def lsr_verdict(prop, inp, out):
